@@ -420,6 +420,11 @@ def run_case(case):
         got_init = (enc_obs(h.sim.simulator_time), h.sim.eventlist().size())
         if got_init != want_init:
             out.fail("after-initialize", {"got": got_init, "want": want_init, "prior": kind})
+        # every registered initial method was carried out for this replication (absolute: the methods are the same
+        # method of the same object with different keyword arguments)
+        ran = sorted(-3 - r[0] for r in h.model.reqlog if r[0] <= -3)
+        if ran != list(range(n_init)):
+            out.fail("initial-methods-carried-out", {"got": ran, "want": list(range(n_init)), "prior": kind})
         from pydsol.core.simulator import RunState, ReplicationState
         if h.sim.run_state != RunState.INITIALIZED or h.sim.replication_state != ReplicationState.INITIALIZED:
             out.fail("state-after-initialize", [h.sim.run_state.name, h.sim.replication_state.name])
